@@ -29,8 +29,6 @@ enum Obs {
     Reopen(bool),
     Search(Option<Vec<(u64, Option<i64>)>>),
     Panic,
-    /// the process died (allocation failure abort) while executing this call
-    Abort,
 }
 
 #[derive(Clone, Debug)]
@@ -142,15 +140,12 @@ struct Sink<'a>(&'a mut dyn FnMut(&Obs));
 impl<'a> Sink<'a> { fn push(&mut self, o: Obs) { (self.0)(&o) } }
 
 
-// ------------------------------------------------------------------ isolation of risky histories
+// ------------------------------------------------------------------ running a history
 /// Bytes a node of this level takes in its page (HnswNode::max_serialized_size).
 fn node_bytes(lvl: u8) -> usize { 8 + 1 + 1 + 32 * 6 + (lvl as usize) * (1 + 16 * 6) }
 
-/// Page bytes the history uses: 64-byte page header + per allocated node a 4-byte slot entry and its
-/// slot. Beyond 8192 bytes the 13-bit slot offsets of the implementation alias (finding F-C25-3):
-/// a slot that really starts at offset o >= 8192 is addressed at o - 8192, which then lies inside the
-/// slot directory / page header or inside later nodes; neighbour ids become garbage and a search may
-/// abort the whole process on a multi-gigabyte VisitedSet allocation.
+/// Page bytes the history allocates (64-byte page header once, 4-byte slot entry + slot per node);
+/// a node page holds 16384 bytes, so beyond that the index spans several pages.
 fn alloc_bytes(h: &Hist) -> usize {
     64 + h.ops.iter().map(|o| match o { Op::Ins { v, lvl, .. } if v.len() == h.dims => node_bytes(*lvl) + 4, _ => 0 }).sum::<usize>()
 }
@@ -164,76 +159,12 @@ fn obs_wire(o: &Obs) -> String {
         Obs::Search(None) => "SE".to_string(),
         Obs::Search(Some(rs)) => format!("S{}", rs.iter().map(|(r, d)| match d { Some(d) => format!("{}:{}", r, d), None => format!("{}:inf", r) }).collect::<Vec<_>>().join(",")),
         Obs::Panic => "P".to_string(),
-        Obs::Abort => "A".to_string(),
     }
 }
-fn obs_unwire(l: &str) -> Option<Obs> {
-    let (c, r) = l.split_at(1);
-    Some(match c {
-        "I" => Obs::Ins(r == "1"),
-        "D" => Obs::Del(r == "1"),
-        "V" => Obs::Vac(r.parse().ok()?),
-        "R" => Obs::Reopen(r == "1"),
-        "P" => Obs::Panic,
-        "A" => Obs::Abort,
-        "S" => {
-            if r == "E" { Obs::Search(None) } else if r.is_empty() { Obs::Search(Some(vec![])) } else {
-                let mut v = vec![];
-                for it in r.split(',') {
-                    let mut p = it.split(':');
-                    let row: u64 = p.next()?.parse().ok()?;
-                    let d = p.next()?;
-                    v.push((row, if d == "inf" { None } else { Some(d.parse().ok()?) }));
-                }
-                Obs::Search(Some(v))
-            }
-        }
-        _ => return None,
-    })
-}
 
-/// `c25 child <file>`: run the one history of <file>, printing one observation per line as it goes.
-fn child_main(file: &str) {
-    use std::io::Write;
-    let txt = std::fs::read_to_string(file).unwrap_or_default();
-    let Some(h) = parse_hist(txt.trim()) else { std::process::exit(4) };
-    let out = std::io::stdout();
-    run_history_with(&h, &mut |o: &Obs| { let mut l = out.lock(); let _ = writeln!(l, "{}", obs_wire(o)); let _ = l.flush(); });
-}
-
-/// Runs a history; one that leaves the regime in which node storage cannot overlap is run in a child
-/// process with an address-space limit, so that an allocation-failure abort is observed, not suffered.
-/// Returns the (possibly truncated) history together with its observations.
 fn run_history(h: &Hist) -> (Hist, Vec<Obs>) {
-    if alloc_bytes(h) <= 8192 {
-        let mut obs = vec![];
-        run_history_with(h, &mut |o: &Obs| obs.push(o.clone()));
-        return (h.clone(), obs);
-    }
-    let n = FILE_NO.fetch_add(1, Ordering::SeqCst);
-    let f = std::env::temp_dir().join(format!("tvh-c25-{}-{}.line", std::process::id(), n));
-    std::fs::write(&f, hist_line(h)).expect("line file");
-    let exe = std::env::current_exe().expect("exe");
-    let tdir = std::env::temp_dir().join(format!("tvh-c25-{}-{}.d", std::process::id(), n));
-    let _ = std::fs::create_dir_all(&tdir);
-    let cmd = format!("ulimit -v 250000; exec '{}' child '{}'", exe.display(), f.display());
-    let outp = std::process::Command::new("sh").arg("-c").arg(&cmd).env("TMPDIR", &tdir).env("RUST_BACKTRACE", "0")
-        .stderr(std::process::Stdio::null()).output();
-    let _ = std::fs::remove_file(&f);
-    let _ = std::fs::remove_dir_all(&tdir);
-    let mut obs: Vec<Obs> = vec![];
-    let mut ok = false;
-    if let Ok(o) = outp {
-        ok = o.status.success();
-        for l in String::from_utf8_lossy(&o.stdout).lines() { if let Some(b) = obs_unwire(l.trim()) { obs.push(b); } }
-    }
-    if !ok || obs.len() < h.ops.len() {
-        let mut hh = h.clone();
-        obs.truncate(hh.ops.len().saturating_sub(1).min(obs.len()));
-        hh.ops.truncate(obs.len() + 1);
-        obs.push(Obs::Abort);
-        return (hh, obs);
-    }
+    let mut obs = vec![];
+    run_history_with(h, &mut |o: &Obs| obs.push(o.clone()));
     (h.clone(), obs)
 }
 
@@ -269,7 +200,6 @@ fn op_term(op: &Op, ob: &Obs) -> String {
             format!("OSearch (SOk {})", clist(&items))
         }
         Obs::Panic => "OPanic".to_string(),
-        Obs::Abort => "OAbort".to_string(),
     };
     format!("({},{})", o, b)
 }
@@ -346,7 +276,6 @@ fn oracle(h: &Hist, obs: &[Obs]) -> Verdict {
     let mut pending_reopen: Option<(Vec<i32>, usize, usize, Vec<(u64, Option<i64>)>)> = None;
     for (op, ob) in h.ops.iter().zip(obs.iter()) {
         if let Obs::Panic = ob { fail(&mut v, "panic"); }
-        if let Obs::Abort = ob { fail(&mut v, "process abort"); }
         match (op, ob) {
             (Op::Ins { row, v: vec, .. }, Obs::Ins(ok)) => {
                 if live.contains_key(row) { return v; } // caller protocol broken: nothing is claimed afterwards
@@ -397,7 +326,7 @@ fn pick_level(rng: &mut Rng) -> u8 {
 fn rand_vec(rng: &mut Rng, dims: usize, span: i64) -> Vec<i32> { (0..dims).map(|_| rng.range(-span, span) as i32).collect() }
 
 #[derive(Clone, Copy, PartialEq)]
-enum Kind { InsertOnly, WithDelete, EntryDelete, Blind, Malformed, Tiny, Overflow }
+enum Kind { InsertOnly, WithDelete, EntryDelete, Blind, Malformed, Tiny, Overflow /* many nodes: several pages */ }
 
 fn gen_hist(rng: &mut Rng, kind: Kind, max_ops: usize) -> Hist {
     let dims = 2 + rng.below(3) as usize;
@@ -405,7 +334,7 @@ fn gen_hist(rng: &mut Rng, kind: Kind, max_ops: usize) -> Hist {
     let efc = *rng.pick(&[1u16, 2, 3, 4, 8, 100]);
     let span = *rng.pick(&[1i64, 2, 3, 8]);
     let n_ops = if kind == Kind::Tiny { 3 + rng.below(5) as usize }
-                else if kind == Kind::Overflow { 12 + rng.below(50) as usize }
+                else if kind == Kind::Overflow { 40 + rng.below(120) as usize }
                 else { 6 + rng.below((max_ops - 5) as u64) as usize };
     let mut ops: Vec<Op> = vec![];
     let mut live: Vec<u64> = vec![];
@@ -414,16 +343,9 @@ fn gen_hist(rng: &mut Rng, kind: Kind, max_ops: usize) -> Hist {
     let mut first_row: Option<u64> = None;
     let mut top_row: Option<(u64, u8)> = None; // row of the node that should be the entry point
     let mut last_q: Option<(Vec<i32>, usize, usize)> = None;
-    let mut used: usize = 64; // page bytes in use; only the Overflow family goes past half a page (F-C25-3)
-    let mut past: usize = 0; // calls made after the first page went past half full
     while ops.len() < n_ops {
-        if used > 8192 { past += 1; if past > 8 { break; } }
-        let mut c = rng.below(100);
-        let mut want_insert = live.len() < 2 || c < 45 || (kind == Kind::Overflow && c < 80);
-        if want_insert && kind != Kind::Overflow && used + node_bytes(0) + 4 > 8192 {
-            if live.len() < 2 { break; }
-            want_insert = false; c = 45 + rng.below(55);
-        }
+        let c = rng.below(100);
+        let want_insert = live.len() < 2 || c < 45 || (kind == Kind::Overflow && c < 80);
         if want_insert {
             let row = if !dead.is_empty() && rng.chance(1, 4) { let i = rng.below(dead.len() as u64) as usize; dead.swap_remove(i) }
                       else { let r = next_row; next_row += 1 + rng.below(2); r };
@@ -431,11 +353,9 @@ fn gen_hist(rng: &mut Rng, kind: Kind, max_ops: usize) -> Hist {
             let mut blind = kind == Kind::Blind || (kind == Kind::Malformed && rng.chance(1, 5));
             if kind == Kind::Malformed && rng.chance(1, 6) { if rng.chance(1, 2) { v.pop(); } else { v.push(1); } blind = false; }
             let lvl = if kind == Kind::Overflow && rng.chance(1, 3) { *rng.pick(&[15u8, 15, 12, 9]) } else { pick_level(rng) };
-            let lvl = if kind != Kind::Overflow && used + node_bytes(lvl) + 4 > 8192 { 0 } else { lvl };
             let good = v.len() == dims;
             ops.push(Op::Ins { row, v, lvl, blind });
             if good {
-                used += node_bytes(lvl) + 4;
                 live.push(row);
                 if first_row.is_none() { first_row = Some(row); }
                 match top_row { Some((_, l)) if l >= lvl => {}, _ => top_row = Some((row, lvl)) }
@@ -483,6 +403,8 @@ fn fixed_hists() -> Vec<Hist> {
         "hist dims=2 m=2 efc=4 ops=I0:0,0:0 I2:3,4:0 D2 I3:1,1:0 S0,0:5:8",
         "hist dims=2 m=16 efc=100 ops=I1:0,0:0b I2:3,4:1b I3:1,1:0b I4:2,2:2b S0,0:5:8",
         "hist dims=3 m=2 efc=1 ops=I1:0,0,0:2 I2:1,0,0:1 I3:0,1,0:0 I4:0,0,1:3 I5:1,1,1:0 S1,1,0:3:2 S1,1,0:5:32",
+        "hist dims=2 m=2 efc=1 ops=I1:2,0:0 I2:4,0:0 I3:6,0:0 D2 S0,0:100:64",
+        "hist dims=2 m=16 efc=4 ops=I1:2,-1:0 I2:3,2:0 I3:1,-3:7 I4:3,-2:0 I5:-3,-2:15 I6:-1,0:15 I7:0,1:15 I8:1,-2:15 S2,-2:100:64",
     ];
     lines.iter().filter_map(|l| parse_hist(l)).collect()
 }
@@ -562,8 +484,6 @@ fn gen_sq(rng: &mut Rng, n: usize) -> Vec<(SqCase, &'static str)> {
 
 // ------------------------------------------------------------------ modes
 fn main() {
-    let argv: Vec<String> = std::env::args().collect();
-    if argv.len() >= 3 && argv[1] == "child" { quiet_panics(); child_main(&argv[2]); return; }
     let a = Args::parse();
     match a.mode.as_str() {
         "gen" => gen(&a),
@@ -587,8 +507,7 @@ fn push_hist(w: &mut CaseWriter, h: &Hist, kind: &str) {
     let v = oracle(&hh, &obs);
     let nontrivial = v.ok_inserts >= 3 && v.multi_result_searches >= 1;
     w.push(hist_term(&hh, &obs), hist_line(h), nontrivial, kind);
-    if alloc_bytes(h) > 8192 { w.count("histories_past_half_page", 1); }
-    if matches!(obs.last(), Some(Obs::Abort)) { w.count("process_aborts_observed", 1); }
+    if alloc_bytes(h) > 16384 { w.count("histories_spanning_pages", 1); }
     if v.eff_deletes > 0 { w.count("histories_with_effective_delete", 1); }
     if !v.ok { w.count("oracle_flagged_in_rust", 1); }
 }
@@ -614,8 +533,8 @@ fn gen(a: &Args) {
             15 => (Kind::Blind, "blind_insert"),
             16 | 17 => (Kind::Malformed, "malformed"),
             18 => (Kind::Tiny, "tiny"),
-            // past half a page the model makes no prediction and a child process is needed: keep it rare
-            _ => if !a.thorough() || i % 100 == 19 { (Kind::Overflow, "half_page_overflow") } else { (Kind::InsertOnly, "insert_only") },
+            // many (and tall) nodes: the first node page fills up and the index spans several pages
+            _ => (Kind::Overflow, "multi_page"),
         };
         // in the thorough tier a tenth of the histories are long
         let mo = if a.thorough() { if i % 10 == 0 { max_ops } else { 60 } } else { max_ops };
